@@ -45,7 +45,8 @@ class SymlinkNode(SymlinkNodeMixin):
 
     def __init__(self, target, parent=None, children=None, **kwargs):
         self.target = target
-        self.target.__dict__.update(kwargs)
+        for key, value in kwargs.items():
+            setattr(self.target, key, value)
         self.parent = parent
         if children:
             self.children = children
